@@ -10,6 +10,7 @@ import (
 	"io"
 	"math"
 	"math/rand"
+	"net/url"
 	"strconv"
 	"strings"
 	"time"
@@ -235,7 +236,7 @@ func genRecord(r *rand.Rand, idx, nref int, sizeClass int) (arec, []sam.Aux) {
 	}
 	a.Tlen = []int{0, 1, -1, 1<<31 - 1, -(1 << 31), r.Intn(10000) - 5000}[r.Intn(6)]
 	// sequence length by size class
-	L := []int{0, 1, 2, 3, 50, 51}[r.Intn(6)]
+	L := []int{0, 1, 2, 3, 50, 51, 255, 256, 257, 512}[r.Intn(10)]
 	switch sizeClass {
 	case 1:
 		L = 2600 + r.Intn(200) // just below / above the reader's 4 KiB inline buffer
@@ -452,9 +453,18 @@ func genHeader(r *rand.Rand, nref, variant int) *sam.Header {
 			name = []string{"HLA-A*01:01", "scaffold|7", "chrUn_KI270302v1", "1", "MT"}[i%5] + fmt.Sprint(i)
 		}
 		ln := []int{1<<28 + i, 1<<31 - 1, 1 << 29}[(i+variant)%3]
-		rf, err := sam.NewReference(name, []string{"", "GRCh38"}[variant%2], "", ln, nil, nil)
+		var uri *url.URL
+		if (i+variant)%3 == 1 {
+			uri, _ = url.Parse("http://example.org/" + name + ".fa")
+		}
+		rf, err := sam.NewReference(name, []string{"", "GRCh38"}[variant%2], "", ln, nil, uri)
 		if err != nil {
 			panic(err)
+		}
+		if (i+variant)%4 == 1 {
+			// tags the library keeps as plain tag/value pairs
+			rf.Set(sam.NewTag("AN"), "alt"+name)
+			rf.Set(sam.NewTag("TP"), "linear")
 		}
 		refs = append(refs, rf)
 	}
